@@ -1,3 +1,4 @@
+#![recursion_limit = "256"]
 //! Engine A driver: seeded batches of simulated CLI histories for C14 / C15 / C16.
 //!
 //!   clisim run --property C14 --tier quick [--cases N] [--workers N] [--max-seconds S]
@@ -314,6 +315,7 @@ fn cmd_run(args: &[String]) -> i32 {
                     }
                 }
             }
+            stats.oracle_refused_well_formed = oracle.refused_well_formed;
             total_stats.lock().unwrap().merge(stats);
             let _ = std::fs::remove_dir_all(&env.base);
             let _ = std::fs::remove_dir_all(&env2.base);
@@ -449,6 +451,7 @@ fn cmd_run(args: &[String]) -> i32 {
             "files_compared": stats.files_compared,
             "writes_expected": stats.writes_expected,
             "oracle_unavailable": stats.oracle_unavailable,
+            "observation_library_refused_a_well_formed_text(C05, not a verdict here)": stats.oracle_refused_well_formed,
             "unmodelled_invocations": stats.unmodelled,
             "determinism": {"seeds_run_twice": det.0, "log_mismatches": det.1},
             "violations_of_other_properties_seen": *other_props.lock().unwrap(),
@@ -483,6 +486,9 @@ fn cmd_run(args: &[String]) -> i32 {
         wall,
         evpath.display()
     );
+    if stats.oracle_refused_well_formed > 0 {
+        println!("NOTE: the library returned an error for {} text(s) that the parser accepts; totality is property C05's business, the model of C14-C16 takes such a refusal as 'erroneous'", stats.oracle_refused_well_formed);
+    }
     if harness_fail {
         for e in stats.harness_errors.iter().take(10) {
             eprintln!("HARNESS-ERROR: {}", e);
